@@ -9,7 +9,7 @@ EXPLANATION = ('Static rules: T2 every function that turns a deadline `at: Insta
                'saturating/checked_duration_since(now)), never now − deadline (at.elapsed(), now.duration_since(at)); T3 delay forwards errors '
                'immediately and schedules items and completion, observe_on schedules all three, each task delivering exactly its notification; '
                'T4 the delay handed to Scheduler::schedule is Some(<the operator\'s delay field>) for delay/delay_subscription and None for '
-               'observe_on/subscribe_on (that the scheduler waits for it is C19.H2). T5 an operator observer only appends to the MultiSubscription it shares with the returned subscription and never unsubscribes it (otherwise the task carrying the terminal is cancelled on append). Declined: order preservation "whatever order the '
+               'observe_on/subscribe_on (that the scheduler waits for it is C19.H2). T5 an operator observer only appends to the MultiSubscription it shares with the returned subscription and never unsubscribes it (otherwise the task carrying the terminal is cancelled on append). T6 the delay timer of a scheduled task is armed inside the task future (at its first poll), never in Scheduler::schedule itself: with deadlines fixed at schedule time an already-expired later task runs inline while an earlier one that was polled too early is re-queued behind it, so items of one delay operator overtake each other on a busy scheduler. Declined: order preservation "whatever order the '
                'scheduler runs its ready tasks in" — each notification is an independent task and nothing re-sequences them, which on a '
                'k-worker pool quantifies over executor run orders that no static argument here bounds.')
 ASSUMPTIONS = ['Instant arithmetic as documented in std']
@@ -45,7 +45,7 @@ SUB_SPEC = {
 
 
 def check(cx):
-    return t2(cx) + t34(cx) + t5(cx)
+    return t2(cx) + t34(cx) + t5(cx) + t6(cx)
 
 
 def t2(cx):
@@ -200,4 +200,34 @@ def t5(cx, prop=None, rule='T5'):
                                g.loc(bad[0]) if bad else fn['span'], [node_desc(g, x) for x in bad]))
     if not cx.control and n < 18:
         res.append(Finding(prop or ID, rule, 'floor', False, 'expected >= 18 observer methods sharing a composite, found %d' % n))
+    return res
+
+
+def t6(cx):
+    """timers are armed inside the spawned future, not by schedule() itself"""
+    from ..expr import walk
+    F = cx.facts
+    res = []
+    n = 0
+    for im in F.impls_of('scheduler::Scheduler'):
+        fn = F.impl_fn(im, 'schedule')
+        if fn is None:
+            continue
+        if cx.control:
+            continue
+        n += 1
+        g = cx.graph(fn['key'])
+        bad = None
+        for x in g.nodes:
+            if x['kind'] in ('call', 'enter') and x['name'].endswith('new_timer'):
+                bad = x
+            elif x['kind'] in ('call', 'enter'):
+                for a in x['args']:
+                    if any(e[0] == 'fn' and str(e[2]).endswith('new_timer') for e in walk(a)):
+                        bad = x
+        res.append(Finding(ID, 'T6', cx.label(fn), not bad,
+                           'schedule() arms the delay timer itself: the delay then counts from scheduling instead of from the first poll, an expired later task runs before an earlier one that is re-queued, and items of one delay operator change order when the scheduler is busy'
+                           if bad else 'the timer is armed inside the task future', g.loc(bad) if bad else fn['span']))
+    if not cx.control and n < 2:
+        res.append(Finding(ID, 'T6', 'floor', False, 'expected >= 2 Scheduler impls, found %d' % n))
     return res
